@@ -157,6 +157,7 @@ func bvlit(w uint8, v uint64) string {
 // Emitter writes define-funs for terms incrementally (each term once per emitter lifetime / reset).
 type Emitter struct {
 	w       io.Writer
+	lets    strings.Builder
 	done    map[*Term]bool
 	NDefs   int
 	declApp map[string]bool
@@ -166,26 +167,49 @@ func NewEmitter(w io.Writer) *Emitter {
 	return &Emitter{w: w, done: map[*Term]bool{}, declApp: map[string]bool{}}
 }
 
-func ref(t *Term) string {
+// Width-1 terms are emitted in sort Bool (solvers handle Boolean structure far better than 1-bit vectors);
+// rb gives a Bool-sorted reference to a 1-bit term, rv a BitVec-sorted reference to any term.
+func rb(t *Term) string {
+	if t.W != 1 {
+		panic("rb on wide term")
+	}
+	switch t.Op {
+	case OConst:
+		if t.C == 1 {
+			return "true"
+		}
+		return "false"
+	case OVar:
+		return "(= |" + t.Name + "| #b1)"
+	}
+	return "t" + strconv.Itoa(int(t.ID))
+}
+
+func rv(t *Term) string {
 	switch t.Op {
 	case OConst:
 		return bvlit(t.W, t.C)
 	case OVar:
 		return "|" + t.Name + "|"
 	}
+	if t.W == 1 {
+		return "(ite t" + strconv.Itoa(int(t.ID)) + " #b1 #b0)"
+	}
 	return "t" + strconv.Itoa(int(t.ID))
 }
 
-func nest(op string, args []*Term) string {
+func ref(t *Term) string { return rv(t) }
+
+func nest(op string, args []*Term, r func(*Term) string) string {
 	// balanced binary nesting for n-ary ops
 	if len(args) == 1 {
-		return ref(args[0])
+		return r(args[0])
 	}
 	if len(args) == 2 {
-		return "(" + op + " " + ref(args[0]) + " " + ref(args[1]) + ")"
+		return "(" + op + " " + r(args[0]) + " " + r(args[1]) + ")"
 	}
 	mid := len(args) / 2
-	return "(" + op + " " + nest(op, args[:mid]) + " " + nest(op, args[mid:]) + ")"
+	return "(" + op + " " + nest(op, args[:mid], r) + " " + nest(op, args[mid:], r) + ")"
 }
 
 // Define makes sure t and everything below it are defined in the solver.
@@ -222,28 +246,65 @@ func (e *Emitter) Define(c *Ctx, t *Term) {
 func (e *Emitter) emit1(c *Ctx, t *Term) {
 	a := t.Args
 	var body string
+	isBool := t.W == 1
 	switch t.Op {
 	case OConst:
 		return
 	case OVar:
 		fmt.Fprintf(e.w, "(declare-const |%s| (_ BitVec %d))\n", t.Name, t.W)
 		return
-	case ONot, ONeg:
-		body = "(" + opNames[t.Op] + " " + ref(a[0]) + ")"
-	case OAnd, OOr, OXor, OAdd, OConcat:
-		body = nest(opNames[t.Op], a)
+	case ONot:
+		if isBool {
+			body = "(not " + rb(a[0]) + ")"
+		} else {
+			body = "(bvnot " + rv(a[0]) + ")"
+		}
+	case ONeg:
+		if isBool {
+			body = rb(a[0]) // -x == x on one bit
+		} else {
+			body = "(bvneg " + rv(a[0]) + ")"
+		}
+	case OAnd, OOr, OXor:
+		if isBool {
+			body = nest(map[Op]string{OAnd: "and", OOr: "or", OXor: "xor"}[t.Op], a, rb)
+		} else {
+			body = nest(opNames[t.Op], a, rv)
+		}
+	case OAdd:
+		if isBool {
+			body = nest("xor", a, rb)
+		} else {
+			body = nest("bvadd", a, rv)
+		}
+	case OConcat:
+		body = nest("concat", a, rv)
 	case OMul, OUDiv, OURem, OSDiv, OSRem, OShl, OLShr, OAShr:
-		body = "(" + opNames[t.Op] + " " + ref(a[0]) + " " + ref(a[1]) + ")"
+		body = "(" + opNames[t.Op] + " " + rv(a[0]) + " " + rv(a[1]) + ")"
+		if isBool {
+			body = "(= " + body + " #b1)"
+		}
 	case OExtract:
-		body = fmt.Sprintf("((_ extract %d %d) %s)", t.Hi(), t.Lo(), ref(a[0]))
+		body = fmt.Sprintf("((_ extract %d %d) %s)", t.Hi(), t.Lo(), rv(a[0]))
+		if isBool {
+			body = "(= " + body + " #b1)"
+		}
 	case OSExt:
-		body = fmt.Sprintf("((_ sign_extend %d) %s)", t.W-a[0].W, ref(a[0]))
+		body = fmt.Sprintf("((_ sign_extend %d) %s)", t.W-a[0].W, rv(a[0]))
 	case OIte:
-		body = fmt.Sprintf("(ite (= %s #b1) %s %s)", ref(a[0]), ref(a[1]), ref(a[2]))
+		if isBool {
+			body = fmt.Sprintf("(ite %s %s %s)", rb(a[0]), rb(a[1]), rb(a[2]))
+		} else {
+			body = fmt.Sprintf("(ite %s %s %s)", rb(a[0]), rv(a[1]), rv(a[2]))
+		}
 	case OEq:
-		body = fmt.Sprintf("(ite (= %s %s) #b1 #b0)", ref(a[0]), ref(a[1]))
+		if a[0].W == 1 {
+			body = fmt.Sprintf("(= %s %s)", rb(a[0]), rb(a[1]))
+		} else {
+			body = fmt.Sprintf("(= %s %s)", rv(a[0]), rv(a[1]))
+		}
 	case OUlt, OSlt:
-		body = fmt.Sprintf("(ite (%s %s %s) #b1 #b0)", opNames[t.Op], ref(a[0]), ref(a[1]))
+		body = fmt.Sprintf("(%s %s %s)", opNames[t.Op], rv(a[0]), rv(a[1]))
 	case OApp:
 		if !e.declApp[t.Name] {
 			e.declApp[t.Name] = true
@@ -257,14 +318,19 @@ func (e *Emitter) emit1(c *Ctx, t *Term) {
 		var sb strings.Builder
 		sb.WriteString("(|" + t.Name + "|")
 		for _, x := range a {
-			sb.WriteString(" " + ref(x))
+			sb.WriteString(" " + rv(x))
 		}
 		sb.WriteString(")")
 		body = sb.String()
+		if isBool {
+			body = "(= " + body + " #b1)"
+		}
 	default:
 		panic("emit: unknown op")
 	}
-	fmt.Fprintf(e.w, "(define-fun t%d () (_ BitVec %d) %s)\n", t.ID, t.W, body)
+	// nested let bindings inside one assertion: z3 is pathologically slow with tens of thousands of
+	// nullary define-funs (measured: >60 s vs 0.2 s for the same 68k definitions)
+	fmt.Fprintf(&e.lets, "(let ((t%d %s))\n", t.ID, body)
 	e.NDefs++
 }
 
@@ -289,16 +355,26 @@ type Query struct {
 // Text renders the query (definitions of the cone of influence + assertions) and returns the variables it mentions.
 func (q *Query) Text() (string, []*Term, int) {
 	var sb strings.Builder
-	em := NewEmitter(&sb)
+	em := NewEmitter(&sb) // declarations go to sb, definitions to em.lets
 	for _, a := range q.Asserts {
 		if a.W != 1 {
 			panic("assert of non-boolean")
 		}
 		em.Define(q.C, a)
 	}
-	for _, a := range q.Asserts {
-		fmt.Fprintf(&sb, "(assert (= %s #b1))\n", ref(a))
+	sb.WriteString("(assert\n")
+	sb.WriteString(em.lets.String())
+	if len(q.Asserts) == 1 {
+		sb.WriteString(rb(q.Asserts[0]))
+	} else {
+		sb.WriteString("(and")
+		for _, a := range q.Asserts {
+			sb.WriteString(" " + rb(a))
+		}
+		sb.WriteString(")")
 	}
+	sb.WriteString(strings.Repeat(")", em.NDefs))
+	sb.WriteString(")\n")
 	var vars []*Term
 	for _, v := range q.C.Vars {
 		if em.done[v] {
@@ -412,7 +488,7 @@ func (p *Proc) run(text string, vars []*Term) (Result, map[string]uint64, string
 		var sb strings.Builder
 		sb.WriteString("(get-value (")
 		for _, v := range vars[i:j] {
-			sb.WriteString(ref(v) + " ")
+			sb.WriteString("|" + v.Name + "| ")
 		}
 		sb.WriteString("))")
 		fmt.Fprintln(p.in, sb.String())
